@@ -184,6 +184,29 @@ Theorem C02_zero_time_sentinel_refuted :
 Proof. exact zero_time_sentinel_refuted. Qed.
 Print Assumptions C02_zero_time_sentinel_refuted.
 
+(* A run removes only count files it collected -- both TimeBegin and TimeEnd
+   readable, ended by the start -- and reports (names ending in .json) ... *)
+Theorem C02_removes_justified : forall (R : Type) (rlt : R -> R -> bool) (rzero : R)
+    mode asof (cfg : runcfg R) (d : dirs) (n : bytes),
+  In (ERemoveLocal n) (fst (run_ma R rlt rzero mode asof cfg d)) ->
+  exists l, d_local d = Some l /\
+    ((exists f, In f l /\ lf_name f = n /\ collectable (rc_start cfg) f = true) \/
+     has_suffix n json_suffix = true).
+Proof. exact removes_justified. Qed.
+Print Assumptions C02_removes_justified.
+
+(* ... so a count file whose collection time is unknown (no usable TimeBegin)
+   is never folded into a report: the oracle spec_unknown_begin_ok, evaluated on
+   the real run's observations, holds of every model run. *)
+Theorem C02_unknown_begin_ok : forall (R : Type) (rlt : R -> R -> bool) (rzero : R)
+    mode asof recorded (cfg : runcfg R) (d : dirs) (damaged : list (bytes * Z)),
+  (forall ne, In ne damaged -> has_suffix (fst ne) json_suffix = false /\
+     forall l f, d_local d = Some l -> In f l -> lf_name f = fst ne -> lf_span f = None) ->
+  let e := fst (run_ma R rlt rzero mode asof cfg d) in
+  spec_unknown_begin_ok recorded damaged (removed_names e) (uploadable_weeks e) = true.
+Proof. exact unknown_begin_ok_model. Qed.
+Print Assumptions C02_unknown_begin_ok.
+
 (* ------------------------------------------------------------------ clause 4
    "With mode "off" neither the counter API nor the uploader creates, changes
    or removes any counter file or report": for every state whose mode file
